@@ -166,6 +166,10 @@ func dispOnce(proto string, data []byte) (impl string, hang bool) {
 	return fmt.Sprintf("%s %s %d", outcome, trace, left), false
 }
 
+// c08l9TarsLens: package lengths around both limits of TarsGo's TarsRequest (4 <= n <= 10485760), and the values that
+// are negative as int32
+var c08l9TarsLens = []uint32{0, 1, 2, 3, 4, 5, 10485759, 10485760, 10485761, 0x7fffffff, 0x80000000, 0xfffffffb, 0xffffffff}
+
 func dispCases(c *hx.Ctx) {
 	type job struct {
 		proto, how string
@@ -195,6 +199,25 @@ func dispCases(c *hx.Ctx) {
 	add("bolt", append([]byte{1, 9}, make([]byte, 20)...), "fixed")
 	add("boltv2", append([]byte{2, 0, 9}, make([]byte, 21)...), "fixed")
 	add("bolt", []byte{1}, "fixed")
+	// [c08l9] tars length prefixes that can never become a package (TarsGo PACKAGE_ERROR: < 4 or > 10 MiB), at every
+	// edge: alone, followed by bytes, followed by a valid package, behind a valid package
+	{
+		var tv framegen.Frame
+		for {
+			tv = framegen.Gen(c.Rng, "tars", true)
+			if len(tv.Bytes) < 256 {
+				break
+			}
+		}
+		for _, v := range c08l9TarsLens {
+			pre := make([]byte, 4)
+			binary.BigEndian.PutUint32(pre, v)
+			add("tars", pre, "tars-length")
+			add("tars", cat(pre, []byte{0x10, 0x01, 0x2c, 0x3c}), "tars-length+bytes")
+			add("tars", cat(pre, tv.Bytes), "tars-length+valid")
+			add("tars", cat(tv.Bytes, pre, []byte{0x10, 0x01}), "valid+tars-length")
+		}
+	}
 	for _, proto := range framegen.Protos {
 		gen := func() framegen.Frame {
 			for {
